@@ -15,9 +15,11 @@ META = {
                  'collector alone) with the HTTP transport replaced by a recorder; recorded configuration value, '
                  'request count, payload key paths, header names and leak classes judged by TLC (trace validation)',
     'level_text': 'TLC enumerates config-file value x environment value x programmatic value x with/without a config '
-                  'file (54 routes) x every Start/UserData/Tick/Stop interleaving with bounded ticks and proves on the '
+                  'file x reporting interval (default / custom / zero / negative, by file or programmatically) x state of the '
+                  'instance-id file (422 feasible routes) x every Start/UserData/Tick/Stop interleaving and proves on the '
                   'automaton: disabled by the documented precedence => zero requests, payload keys within the documented '
-                  'whitelist, no leak.  All 54 routes are then executed on the real NewConfig (harness-written YAML and '
+                  'whitelist, instance id of random-UUID shape, no leak.  All 54 configuration routes plus a stratified sample of '
+                  'the interval and id-file dimensions are then executed on the real NewConfig (harness-written YAML and '
                   'LIFTBRIDGE_TELEMETRY_ENABLED) and a real one-node server holding a stream, a published message and NATS '
                   'credentials, with a 1 s interval; the collector alone runs TLC-simulated life cycles with a 40 ms '
                   'interval.  TLC judges every recorded step.',
@@ -33,7 +35,9 @@ TRI = ['unset', 'true', 'false']
 
 
 def route_sig(r):
-    return 'file=%s,env=%s,prog=%s,cfgfile=%s' % (r['file'], r['env'], r['prog'], 'yes' if r['hasFile'] else 'no')
+    return 'file=%s,env=%s,prog=%s,cfgfile=%s,interval=%s/%s,idfile=%s' % (
+        r['file'], r['env'], r['prog'], 'yes' if r['hasFile'] else 'no', r.get('ival', 'custom'), r.get('ivalBy', 'prog'),
+        r.get('idfile', 'ok'))
 
 
 def judge(rep, trace, behaviours, level, stats):
@@ -52,7 +56,7 @@ def judge(rep, trace, behaviours, level, stats):
             firsts[key] = (ln, action)
     for (tid, name), (ln, action) in sorted(firsts.items()):
         b = by_id.get(tid)
-        r = b['cfg']['route'] if b else {'file': '-', 'env': '-', 'prog': '-', 'hasFile': False}
+        r = b['cfg']['route'] if b else {'file': '-', 'env': '-', 'prog': '-', 'hasFile': False, 'ival': '-', 'ivalBy': '-', 'idfile': '-'}
         rep.classify('C19|%s|%s|%s|%s' % (name, level, action, route_sig(r)),
                      '%s fails at step %s (line %d) for route %s' % (name, action, ln, route_sig(r)),
                      {'level': level, 'behaviours': [b] if b else behaviours[:1]})
@@ -76,15 +80,41 @@ def execute(d, level, behaviours, par):
 
 
 def lifecycles_from(sims):
-    """TLC behaviours -> {route key: [step lists]}"""
+    """distinct life cycles (step lists) of the TLC behaviours; in the specification the enabledness of the
+    life-cycle actions does not depend on the route, so a life cycle can be paired with any route"""
     out = {}
     for b in sims:
-        route = core.tlaval.state_var(b[0]['body'], 'route')
         steps = [{'a': st['last']['a']} for st in b[1:]]
         if not steps or steps[0]['a'] != 'LoadConfig':
             continue
-        out.setdefault(core.sha(route), (route, []))[1].append(steps)
-    return out
+        out[core.sha(steps)] = steps
+    return list(out.values())
+
+
+def doc_enabled(r):
+    if r['prog'] != 'unset':
+        return r['prog'] == 'true'
+    if r['env'] != 'unset':
+        return r['env'] == 'true'
+    if r['hasFile'] and r['file'] != 'unset':
+        return r['file'] == 'true'
+    return True
+
+
+def feasible(r):
+    """Feasible(r) of Telemetry.tla"""
+    if r['ival'] in ('zero', 'negative') and doc_enabled(r):
+        return False
+    if r['ivalBy'] == 'file' and (not r['hasFile'] or r['ival'] == 'default'):
+        return False
+    if r['ival'] == 'default' and r['ivalBy'] != 'prog':
+        return False
+    return True
+
+
+def adapt(steps, route):
+    """an interval can only be waited for when it is short: Tick steps are kept for the custom interval only"""
+    return [s for s in steps if s['a'] != 'Tick' or route['ival'] == 'custom']
 
 
 def run(rep, tier, seed, replay):
@@ -104,36 +134,61 @@ def run(rep, tier, seed, replay):
     if res['violated']:
         raise core.Inconclusive('the automaton itself violates %s - see design_notes/C19.md' % res['violated'])
     # life cycles from the specification (seeded simulation), grouped by route
-    sims = core.tlc_simulate('MC_Telemetry.tla', 'Sim_Telemetry.cfg', 1200 if tier == 'quick' else 4000, 9, seed)
-    by_route = lifecycles_from(sims)
-    routes = [{'file': f, 'env': e, 'prog': p, 'hasFile': h} for f in TRI for e in TRI for p in TRI for h in (True, False)]
-    missing = [r for r in routes if core.sha(r) not in by_route]
-    if missing:
-        raise core.Inconclusive('simulation did not produce a life cycle for %d routes' % len(missing))
-    per_route = 1 if tier == 'quick' else 3
+    sims = core.tlc_simulate('MC_Telemetry.tla', 'Sim_Telemetry.cfg', 600 if tier == 'quick' else 3000, 9, seed)
+    cycles = lifecycles_from(sims)
+    full = [c for c in cycles if [x['a'] for x in c].count('Start') == 1]
+    full.sort(key=lambda c: (-('UserData' in [x['a'] for x in c]), -('Stop' in [x['a'] for x in c]), -len(c), core.sha(c)))
+    if len(full) < 4:
+        raise core.Inconclusive('simulation produced only %d life cycles with a Start' % len(full))
+
+    def cycle():
+        head = full[:6]
+        return rng.choice(head) if rng.random() < 0.75 else rng.choice(full)
+
+    base = [{'file': f, 'env': e, 'prog': p, 'hasFile': h} for f in TRI for e in TRI for p in TRI for h in (True, False)]
+    server_routes = []
+    # (1) every configuration route with a short interval (set through the file or programmatically), usable id file
+    for r in base:
+        by = rng.choice(['file', 'prog']) if r['hasFile'] else 'prog'
+        server_routes.append(dict(r, ival='custom', ivalBy=by, idfile='ok'))
+    # (2) the interval dimension: zero / negative (only where telemetry must be silent) and default, by file and by prog
+    silent = [r for r in base if not doc_enabled(r)]
+    kinds = {'prog': [r for r in silent if r['prog'] == 'false'],
+             'env': [r for r in silent if r['prog'] == 'unset' and r['env'] == 'false'],
+             'file': [r for r in silent if r['prog'] == 'unset' and r['env'] == 'unset']}
+    n_iv = 1 if tier == 'quick' else 4
+    for ival in ('zero', 'negative'):
+        for by in ('file', 'prog'):
+            for kind, lst in sorted(kinds.items()):
+                cands = [dict(r, ival=ival, ivalBy=by, idfile='ok') for r in lst]
+                cands = [r for r in cands if feasible(r)]
+                rng.shuffle(cands)
+                server_routes += cands[:n_iv]
+    dflt = [dict(r, ival='default', ivalBy='prog', idfile='ok') for r in base]
+    rng.shuffle(dflt)
+    server_routes += [r for r in dflt if doc_enabled(r)][:2 * n_iv] + [r for r in dflt if not doc_enabled(r)][:2 * n_iv]
+    # (3) the instance-id file cannot be read or written (these servers run alone, one after the other)
+    bad = [dict(r, ival='custom', ivalBy='prog', idfile='unusable') for r in base]
+    rng.shuffle(bad)
+    server_routes += [r for r in bad if doc_enabled(r)][:3 * n_iv] + [r for r in bad if not doc_enabled(r)][:n_iv]
+    per_route = 1 if tier == 'quick' else 2
     server_b, coll_b = [], []
-    for r in routes:
-        cands = by_route[core.sha(r)][1]
-        # server level: life cycles that start the server; prefer the ones that also create user data and stop
-        full = [s for s in cands if [x['a'] for x in s].count('Start') == 1]
-        full.sort(key=lambda s: (-('UserData' in [x['a'] for x in s]), -('Stop' in [x['a'] for x in s]), -len(s)))
-        seen = set()
-        pick = []
-        for s in full:
-            k = core.sha(s)
-            if k not in seen:
-                seen.add(k)
-                pick.append(s)
-        head, tail = pick[:4], pick[4:]
-        rng.shuffle(head)
-        rng.shuffle(tail)
-        for s in (head + tail)[:per_route]:
-            server_b.append({'id': len(server_b) + 1, 'cfg': {'route': r}, 'steps': s})
-        # collector level: programmatic route only
-        if r['file'] == 'unset' and r['env'] == 'unset' and not r['hasFile']:
-            cs = [s for s in pick if 'UserData' not in [x['a'] for x in s]]
-            for s in cs[:12 if tier == 'quick' else 60]:
-                coll_b.append({'id': len(coll_b) + 1, 'cfg': {'route': r}, 'steps': s})
+    for r in server_routes:
+        if not feasible(r):
+            raise core.Inconclusive('infeasible route generated: %s' % r)
+        for _ in range(per_route):
+            server_b.append({'id': len(server_b) + 1, 'cfg': {'route': r}, 'steps': adapt(cycle(), r)})
+    # collector alone: programmatic switch x interval x id file, every life cycle without user data
+    ccycles = [c for c in full if 'UserData' not in [x['a'] for x in c]]
+    for prog in TRI:
+        for ival in ('custom', 'default', 'zero', 'negative'):
+            for idfile in ('ok', 'unusable'):
+                r = {'file': 'unset', 'env': 'unset', 'prog': prog, 'hasFile': False, 'ival': ival, 'ivalBy': 'prog',
+                     'idfile': idfile}
+                if not feasible(r):
+                    continue
+                for c in ccycles[:3 if tier == 'quick' else 12]:
+                    coll_b.append({'id': len(coll_b) + 1, 'cfg': {'route': r}, 'steps': adapt(c, r)})
     with core.scratch('c19') as d:
         judge(rep, execute(d, 'collector', coll_b, par), coll_b, 'collector', stats)
         judge(rep, execute(d, 'server', server_b, par), server_b, 'server', stats)
@@ -142,14 +197,15 @@ def run(rep, tier, seed, replay):
     rep.cov['trace_lines_validated'] = stats.get('lines', 0)
     rep.cov['evaluations'] = len(allb)
     rep.cov['routes_executed_on_server'] = len({core.sha(b['cfg']['route']) for b in server_b})
+    rep.cov['config_routes_executed_on_server'] = len({core.sha([b['cfg']['route'][k] for k in ('file', 'env', 'prog', 'hasFile')]) for b in server_b})
     rep.cov['server_behaviours'] = len(server_b)
     rep.cov['collector_behaviours'] = len(coll_b)
     rep.cov['distinct_nontrivial'] = len({core.sha([b['cfg']['route'], b['steps']]) for b in allb
                                           if 'Start' in [s['a'] for s in b['steps']]})
-    rep.cov['rule'] = ('one behaviour = a configuration route (file x env x prog x config file present) with a TLC-simulated '
+    rep.cov['rule'] = ('one behaviour = a route (file x env x prog x config file present x interval x id-file state) with a TLC-simulated '
                        'life cycle; all 54 routes are executed on a real server; non-trivial = the server / collector is '
                        'actually started; distinct by hash of (route, step list)')
-    rep.cov['exhaustive'] = rep.cov['routes_executed_on_server'] == 54
+    rep.cov['exhaustive'] = False   # all 54 configuration routes are executed; the interval / id-file dimensions are sampled
     rep.cov['samples'] = server_b[:2] + coll_b[:1]
     rep.assumptions += ['the collector sends through http.DefaultTransport (recorder); a private transport would be seen as drift',
                         'silence is observed over a window of 1.7 s (interval 1 s) after each step',
